@@ -247,7 +247,7 @@ def main(argv):
         try:
             props.CHECKS[prop](run)
         except ExecHang as h:
-            run.violation(h.case, "Program::execute did not return within the harness's limit: non-termination (a value or an error is required)")
+            run.violation(h.case, "cel-rust did not return from %s within the harness's limit: non-termination (a value or an error is required)" % h.case.get("phase", "a call"))
         return run.finish()
     except T.ToolError as e:
         sys.stderr.write("TOOL ERROR: %s\n" % e)
